@@ -156,3 +156,37 @@ Example C08_meek_prf_nonvacuous :
   | _ => False end.
 Proof. vm_compute. repeat constructor. Qed.
 
+(* ---- ... for every ballot file the reader accepts ----
+   [parse_file] is the reader model (C15/C16), [to_count_profile] what Election.__init__ reads off the parsed profile
+   (Model/EndToEnd.v); the hypothesis "well-formed profile" of the whole-run theorems is discharged by the reader's
+   theorem (Proofs/EndToEndLink.v).  ./check runs the composed pipeline (text -> reader model -> count model) against
+   the implementation on the same files (correspondence group e2e). *)
+From Droop Require Import Model.Profile Model.EndToEnd Proofs.EndToEndLink.
+
+Theorem C08_every_iteration_conserves_votes_for_every_accepted_file : forall A S (ZL : zlike A S) cfg, cf_method cfg = MMeek ->
+  forall text p fuel s k, parse_file text = Ok p ->
+  exec (@crashed A) fuel (count_cmd A cfg RMeek) (init_state A cfg (to_count_profile p)) = Some (s, k) -> k <> Abort ->
+  forall a sn, In a (actions s) -> a_tag a = TIterate -> a_snap a = Some sn ->
+  raw ZL (as_votes sn) + match as_nt sn with Some x => raw ZL x | None => 0 end = S * p_nBallots p.
+Proof. exact accepted_meek_iterations. Qed.
+Print Assumptions C08_every_iteration_conserves_votes_for_every_accepted_file.
+
+Theorem C08_keep_factors_in_range_for_every_accepted_file : forall A S (ZL : zlike A S) cfg, cf_method cfg = MMeek ->
+  exact A = false -> 0 <= cf_nseats cfg -> 0 <= cf_nballots cfg ->
+  forall text p fuel s k, parse_file text = Ok p ->
+  exec (@crashed A) fuel (count_cmd A cfg RMeek) (init_state A cfg (to_count_profile p)) = Some (s, k) -> k <> Abort ->
+  forall a sn, In a (actions s) -> a_tag a = TIterate -> a_snap a = Some sn ->
+  (forall x, In x (as_c sn) -> 0 <= raw ZL (sn_vote x) /\ kf_range S (sn_st x) (kfs A S ZL (sn_kf x))) /\
+  match as_nt sn with Some r => 0 <= raw ZL r | None => True end.
+Proof. exact accepted_meek_kf_ranges. Qed.
+Print Assumptions C08_keep_factors_in_range_for_every_accepted_file.
+
+Theorem C08_meek_prf_snapshots_for_every_accepted_file : forall A S (ZL : zlike A S) cfg, cf_method cfg = MMeek ->
+  forall text p fuel s k, parse_file text = Ok p ->
+  exec (@crashed A) fuel (count_cmd A cfg RMeekPrf) (init_state A cfg (to_count_profile p)) = Some (s, k) -> k <> Abort ->
+  (forall a sn, In a (actions s) -> claimed (a_tag a) (a_msg a) = true -> a_snap a = Some sn ->
+     raw ZL (as_votes sn) + match as_nt sn with Some x => raw ZL x | None => 0 end = S * ballot_total (to_count_profile p)) /\
+  (exists a rest sn, actions s = a :: rest /\ a_tag a = TEnd /\ a_snap a = Some sn /\
+     raw ZL (as_votes sn) + match as_nt sn with Some x => raw ZL x | None => 0 end = cf_nballots cfg * S).
+Proof. exact accepted_meek_prf. Qed.
+Print Assumptions C08_meek_prf_snapshots_for_every_accepted_file.
